@@ -290,7 +290,12 @@ def run(rep: Report, prog: Program, tier: str) -> None:
         out = []
         for i in range(n):
             send_ms = i * 10
-            if kind == "growing queueing delay (over-use)":
+            if kind == "over-use, then the queue drains (additive increase near the measured maximum)":
+                # 3 s steady, 1.5 s of growing queueing delay, then the sender halves its packets and the queue drains within a second
+                delay = 0 if i < 300 else ((i - 300) * 3) // 5 if i < 450 else max(0, 90 - (i - 450))
+                arr = 1000 + i * 10 + delay
+                size, ssrc = (600 if i < 450 else 300), 1234
+            elif kind == "growing queueing delay (over-use)":
                 arr = 1000 + i * 10 + (i * 3) // 7
                 size, ssrc = 1200, 1234
             elif kind == "steady, two SSRCs, some empty packets":
@@ -306,10 +311,10 @@ def run(rep: Report, prog: Program, tier: str) -> None:
                      "sparse: 200 ms of packets, 1.6 s pause, resume": tuple(range(0, 200, 10)) + tuple(range(1800, 3400, 10))}[kind]
             out = [(t, 1000 + t, 1200, 1234) for t in times]
         return out
-    scen = [("growing queueing delay (over-use)", 130), ("sparse: 0, 10, 3500 ms", 0), ("sparse: long pauses", 0),
+    scen = [("growing queueing delay (over-use)", 130), ("over-use, then the queue drains (additive increase near the measured maximum)", 800), ("sparse: 0, 10, 3500 ms", 0), ("sparse: long pauses", 0),
             ("sparse: several packets in the same millisecond at the start and after a pause", 0)]
     if tier == "thorough":
-        scen = [("growing queueing delay (over-use)", 300), ("steady, two SSRCs, some empty packets", 420), ("bursts", 300),
+        scen = [("growing queueing delay (over-use)", 300), ("over-use, then the queue drains (additive increase near the measured maximum)", 1200), ("steady, two SSRCs, some empty packets", 420), ("bursts", 300),
                 ("sparse: 0, 10, 3500 ms", 0), ("sparse: long pauses", 0), ("sparse: 200 ms of packets, 1.6 s pause, resume", 0)]
     for kind, n in scen:
         results = {}
